@@ -59,8 +59,9 @@ mut("C17", "chunks-ignore-channels", IO,
 mut("C17", "stop-does-not-wake", IO,
     "      self.go.set() # Wakes the thread up when paused, \"halting\" "
     "stops it\n", "      self.go.clear()\n")
-mut("C17", "no-halting-test-after-wait", IO,
-    "        if self.halting: # Stopped while paused\n          break\n", "")
+# equivalent under the statement: dropping the halting re-test after
+# go.wait() only lets a stopped player write one more chunk (still a
+# chunk-aligned prefix; stop is not promised to be prompt)
 mut("C17", "pause-blocks-stopping-thread", IO,
     "      if not self.halting: # Nothing should block a thread that is "
     "stopping\n        self.go.clear()\n", "      self.go.clear()\n")
